@@ -115,6 +115,18 @@ class Builtin(Value):
     name: str
 
 
+class GuardedYield(Value):
+    """a value yielded under a path condition (a generator that skips some elements): the consumer's loop body runs for it
+    only where the condition holds"""
+
+    def __init__(self, cond, value):
+        self.cond = cond
+        self.value = value
+
+    def as_term(self):
+        return op("guarded", to_term(self.cond), to_term(self.value))
+
+
 @dataclass(eq=False)
 class SuperVal(Value):
     cls: Class
@@ -217,6 +229,8 @@ class Env:
                 e.vars[k] = v.copy()
         e.pathcond = self.pathcond
         e.loopvars = list(self.loopvars)
+        if hasattr(self, "yields"):
+            e.yields = self.yields      # the generator frame's sink is shared by every branch and loop body of the frame
         return e
 
     def lookup(self, name: str):
@@ -841,7 +855,7 @@ class Interp:
         if sink is None:
             return self.note_unknown("yield outside a generator frame", node, env)
         if env.pathcond != TRUE_T:
-            sink.append(op("guarded", env.pathcond, to_term(v)))
+            sink.append(GuardedYield(env.pathcond, v))
         else:
             sink.append(v)
         return None
@@ -1651,6 +1665,19 @@ class Interp:
         out = Flow(env=env)
         broke = False
         for x in seq:
+            if isinstance(x, GuardedYield):
+                # `for v in gen(): body` where gen yields v only under a condition is `if cond: body` for that element
+                e_then = out.env.fork()
+                e_then.pathcond = AND(out.env.pathcond, to_term(x.cond))
+                self.assign_target(st.target, x.value, e_then, st)
+                f = self.exec_block(st.body, e_then)
+                out.returns += f.returns
+                if f.breaks or f.conts or f.env is None:
+                    env.vars = snapshot.vars
+                    del self.unknown_notes[n_unknown:]
+                    return None
+                out.env = self.merge_envs(to_term(x.cond), f.env, out.env, out.env)
+                continue
             self.assign_target(st.target, x, out.env, st)
             f = self.exec_block(st.body, out.env)
             out.returns += f.returns
